@@ -282,6 +282,95 @@ pub fn run(a: &Args) {
 				}
 			}
 		}
+		// ---------------- (c) divergence by cancelling a broadcast transaction that is then mined
+		let mut seen = seen;
+		let note_outputs = |world: &World, seen: &mut Vec<BTreeMap<String, (String, u64)>>| {
+			for i in 0..2 {
+				for o in world.wallets[i].all_outputs().unwrap_or_default() {
+					seen[i].insert(world.wallets[i].commit_of(&o).to_hex(), (idstr(&o.root_key_id), o.value));
+				}
+			}
+		};
+		world.node.set_page(0);
+		{
+			let r = (|| -> Result<(), libwallet::Error> {
+				let (a, b) = (&world.wallets[0], &world.wallets[1]);
+				let s1 = a.init_send(libwallet::InitTxArgs { amount: 500_000_000 + rng.below(2_000_000_000), minimum_confirmations: 1, num_change_outputs: 1, selection_strategy_is_use_all: false, ..Default::default() })?;
+				a.lock_outputs(&s1)?;
+				let s2 = b.receive(&s1, None)?;
+				let s3 = a.finalize(&s2)?;
+				a.post(s3.tx_or_err()?)?;
+				Ok(())
+			})();
+			if r.is_ok() {
+				note_outputs(&world, &mut seen);
+				// the sender gives the transaction up although it is in the pool; then it is mined
+				let id = world.wallets[0].all_txs().unwrap_or_default().iter().filter(|t| t.tx_type == TxLogEntryType::TxSent && !t.confirmed).map(|t| t.id).max();
+				let c = world.wallets[0].cancel(id, None);
+				let _ = world.mine_n(None, 2);
+				if c.is_ok() {
+					let tip = world.height();
+					for wi in 0..2 {
+						let tr = truth(&world, &seen[wi]);
+						let wal = &world.wallets[wi];
+						rep.eval();
+						let case3 = json!({"job":"c16","history_seed": hseed, "scenario": si, "wallet": wi, "divergence": "a broadcast transaction cancelled by the sender, then mined"});
+						match catch(|| wal.scan(None, false)) {
+							Err((loc, msg)) => rep.violation(&format!("C16|panic|{}", loc), &msg, case3.clone()),
+							Ok(Err(e)) => rep.violation(&format!("C16|repair-scan-failed|{}", err_kind(&e)), &format!("{:?}", e), case3.clone()),
+							Ok(Ok(())) => {
+								if compare_with_truth(&mut rep, "repair-after-cancel-of-broadcast", wal, &tr, tip, true, &case3) {
+									rep.count("repair-after-cancel-of-broadcast:matches-chain-truth");
+								}
+								let p1 = proj_no_ts(wal);
+								let _ = wal.scan(None, false);
+								if proj_no_ts(wal) != p1 {
+									rep.violation("C16|repair-after-cancel-of-broadcast|second-scan-changes-state", "a second scan changed the repaired wallet", case3.clone());
+								}
+								rep.distinct(&("repair-cancel-broadcast", wi));
+							}
+						}
+					}
+				}
+			}
+		}
+		// ---------------- (d) divergence by a reorganisation: the last blocks (with whatever of the wallets' transactions
+		// and coinbases they held) are replaced by a longer fork of neutral blocks; done last
+		{
+			note_outputs(&world, &mut seen);
+			let tip0 = world.height();
+			let d = 2 + rng.below(4);
+			if tip0 > d + 2 {
+				match world.build_fork(tip0 - d, d as usize + 1, &[], 4242 + si as u32) {
+					Err(e) => rep.inconclusive(&format!("fork builder failed: {}", e)),
+					Ok(_) => {
+						world.node.st.lock().pool.clear();
+						let tip = world.height();
+						for wi in 0..2 {
+							let tr = truth(&world, &seen[wi]);
+							let wal = &world.wallets[wi];
+							rep.eval();
+							let case4 = json!({"job":"c16","history_seed": hseed, "scenario": si, "wallet": wi, "divergence": format!("the last {} blocks replaced by a fork of {} neutral blocks", d, d + 1)});
+							match catch(|| wal.scan(None, false)) {
+								Err((loc, msg)) => rep.violation(&format!("C16|panic|{}", loc), &msg, case4.clone()),
+								Ok(Err(e)) => rep.violation(&format!("C16|repair-scan-failed|{}", err_kind(&e)), &format!("{:?}", e), case4.clone()),
+								Ok(Ok(())) => {
+									if compare_with_truth(&mut rep, "repair-after-reorg", wal, &tr, tip, true, &case4) {
+										rep.count("repair-after-reorg:matches-chain-truth");
+									}
+									let p1 = proj_no_ts(wal);
+									let _ = wal.scan(None, false);
+									if proj_no_ts(wal) != p1 {
+										rep.violation("C16|repair-after-reorg|second-scan-changes-state", "a second scan changed the repaired wallet", case4.clone());
+									}
+									rep.distinct(&("repair-reorg", wi, d));
+								}
+							}
+						}
+					}
+				}
+			}
+		}
 		let _ = flights;
 		drop(world);
 		let _ = std::fs::remove_dir_all(&dir);
